@@ -154,3 +154,596 @@ def instance_type_state(repo: Repo, rep: Report, rule: str) -> None:
     if n < 1:
         raise AnalysisError("no write of self.type found in Instance outside update_type")
     rep.floor(rule, 2)
+
+
+# ================================================================================================ round-6 remedies
+from .srcmodel import M_PACK, M_UNPACK, M_SCHEMA  # noqa: E402
+
+M_MIXINS = {"msgpack": "mashumaro.mixins.msgpack", "toml": "mashumaro.mixins.toml", "orjson": "mashumaro.mixins.orjson", "yaml": "mashumaro.mixins.yaml"}
+M_CODECS = {"msgpack": "mashumaro.codecs.msgpack", "toml": "mashumaro.codecs.toml", "orjson": "mashumaro.codecs.orjson", "yaml": "mashumaro.codecs.yaml"}
+
+
+def _func(repo: Repo, module: str, name: str) -> Optional[FuncInfo]:
+    return repo.funcs.get(f"{module}::{name}")
+
+
+def _strings(node: ast.AST) -> str:
+    """Concatenated constant text of the string pieces under node (f-string holes rendered as {..})."""
+    out = []
+    for n in ast.walk(node):
+        if isinstance(n, ast.Constant) and isinstance(n.value, str):
+            out.append(n.value)
+    return "".join(out)
+
+
+def dispatcher_paths_agree(repo: Repo, rep: Report, rule: str) -> None:
+    """The dialect dispatcher emitted by _add_pack_method_with_dialect_lines / _add_unpack_method_with_dialect_lines
+    has two exits: the cache hit (`packer(...)`) and the compile-then-call (`<cache>[dialect](...)`).  Both forward
+    the same argument list (one variable, built once from get_*_method_flags) through the same return template (one
+    variable with a single reaching definition group before the first exit).  Otherwise the second and later calls
+    with a dialect behave differently from the first (encoder options, context, flags dropped on one exit only)."""
+    n = 0
+    for qn, hit, helper in (("CodeBuilder._add_pack_method_with_dialect_lines", "packer(", "get_pack_method_flags"),
+                            ("CodeBuilder._add_unpack_method_with_dialect_lines", "unpacker(", "get_unpack_method_flags")):
+        fi = repo.func(M_BUILDER, qn)
+        exits = []
+        for c in _own_nodes(fi.node):
+            if isinstance(c, ast.JoinedStr):
+                txt = _strings(c)
+                if (hit in txt and "=" not in txt.split(hit)[0][-12:] and ".get(" not in txt) or "[dialect](" in txt:
+                    names = sorted({x.id for v in c.values if isinstance(v, ast.FormattedValue) for x in ast.walk(v.value) if isinstance(x, ast.Name)} - {"cache_name"})
+                    exits.append((c, names))
+        if len(exits) != 2:
+            raise AnalysisError(f"{qn}: expected the two exits of the dialect dispatcher, found {len(exits)}")
+        (a, na), (b, nb) = sorted(exits, key=lambda e: e[0].lineno)
+        n += 1
+        inst = f"{qn.split('.')[-1]}: cache-hit exit forwards {na}, compile exit forwards {nb}"
+        if na != nb or len(na) != 1:
+            rep.violation(rule, fi.key, inst, "both exits of the dialect dispatcher must forward the same argument list: with different lists the "
+                          "first call with a dialect and the later ones (cache hit) pass different flags / context to the same compiled method", loc=_loc(fi, a))
+            continue
+        var = na[0]
+        defs = [st for st in _own_nodes(fi.node) if isinstance(st, ast.Assign) and any(ast.unparse(t) == var for t in st.targets)]
+        if len(defs) != 1 or helper not in ast.unparse(defs[0].value):
+            rep.violation(rule, fi.key, inst + f"; `{var}` is not built once from {helper}()", "the forwarded flags are exactly the ones the compiled method declares "
+                          f"({helper} is their single source)", loc=_loc(fi, defs[0] if defs else a))
+            continue
+        # the return template (if any): every definition precedes the first exit
+        tmpl = set()
+        for c in _own_nodes(fi.node):
+            if isinstance(c, ast.Call) and isinstance(c.func, ast.Attribute) and c.func.attr == "format" and isinstance(c.func.value, ast.Name):
+                tmpl.add(c.func.value.id)
+        bad = None
+        for t in tmpl:
+            for st in _own_nodes(fi.node):
+                if isinstance(st, ast.Assign) and any(ast.unparse(x) == t for x in st.targets) and st.lineno > a.lineno:
+                    bad = (t, st)
+        uses = [c for c in _own_nodes(fi.node) if isinstance(c, ast.Call) and isinstance(c.func, ast.Attribute) and c.func.attr == "format"]
+        if bad:
+            rep.violation(rule, fi.key, inst + f"; the return template `{bad[0]}` is redefined between the two exits",
+                          "the encoder and its options wrap both exits identically", loc=_loc(fi, bad[1]))
+        elif tmpl and len(uses) != 2:
+            rep.violation(rule, fi.key, inst + f"; the return template is applied {len(uses)} time(s), not on both exits", "the encoder and its options wrap both exits identically", loc=fi.loc)
+        else:
+            rep.ok(rule, inst + (f"; one return template {sorted(tmpl)} defined before the first exit" if tmpl else ""), None)
+    # sibling: the emitted CodeBuilder(...) constructor calls carry the same keywords
+    kws = {}
+    for qn in ("CodeBuilder._add_pack_method_with_dialect_lines", "CodeBuilder._add_unpack_method_with_dialect_lines"):
+        fi = repo.func(M_BUILDER, qn)
+        import re
+        for c in _own_nodes(fi.node):
+            if isinstance(c, ast.Call) and ast.unparse(c.func) == "self.add_line" and c.args and "CodeBuilder(" in _strings(c.args[0]):
+                kws[qn] = (set(re.findall(r"(\w+)=", _strings(c.args[0]))), c, fi)
+    if len(kws) != 2:
+        raise AnalysisError("the emitted CodeBuilder(...) call of a dialect dispatcher was not found")
+    (pa, ca, fa), (pb, cb, fb) = kws.values()
+    inst = f"emitted CodeBuilder(...) keywords: pack {sorted(pa)}, unpack {sorted(pb)}"
+    need = {"dialect", "first_method", "format_name", "default_dialect"}
+    if pa != pb or not need <= pa:
+        miss_fi, miss_c = (fa, ca) if not need <= pa else (fb, cb)
+        rep.violation(rule, miss_fi.key, inst, "the dialect-specific builder is created with the same parameters on the pack and the unpack side "
+                      "(call dialect, first method, format, the format's default dialect): dropping default_dialect on one side makes "
+                      "encode and decode disagree about the format dialect (msgpack bytes) when a dialect is passed", loc=_loc(miss_fi, miss_c))
+    else:
+        rep.ok(rule, inst, None)
+    rep.floor(rule, 3)
+
+
+def flag_lists_owned(repo: Repo, rep: Report, rule: str) -> None:
+    """Keyword lists of the form `<flag>=<flag>` forwarded between generated methods are built in
+    get_pack_method_flags / get_unpack_method_flags only (they know context, dialect, encoder/decoder, omit_none,
+    by_alias together).  A second, hand-built list elsewhere in CodeBuilder forgets whatever flag is added later."""
+    owners = {"get_pack_method_flags", "get_unpack_method_flags"}
+    n = 0
+    for fi in repo.funcs.values():
+        if fi.module != M_BUILDER:
+            continue
+        for c in _own_nodes(fi.node):
+            if not isinstance(c, ast.JoinedStr) or len(c.values) != 3:
+                continue
+            a, eq, b = c.values
+            if isinstance(a, ast.FormattedValue) and isinstance(b, ast.FormattedValue) and isinstance(eq, ast.Constant) and eq.value == "=" \
+                    and ast.unparse(a.value) == ast.unparse(b.value):
+                n += 1
+                name = fi.qualname.split(".")[-1]
+                inst = f"{fi.qualname}: builds `{ast.unparse(c)}`"
+                if name in owners:
+                    rep.ok(rule, inst, None)
+                else:
+                    rep.violation(rule, fi.key, inst + " outside get_pack_method_flags / get_unpack_method_flags",
+                                  "a hand-built flag list forwards only the flags its author thought of: context (ADD_SERIALIZATION_CONTEXT) or a later flag "
+                                  "is dropped on that path, so hooks of nested instances see context=None", loc=_loc(fi, c))
+    rep.floor(rule, 3)
+
+
+def default_dialect_is_default(repo: Repo, rep: Report, rule: str) -> None:
+    """Whatever is passed as `default_dialect=` to a CodeBuilder (a real call or an emitted one) is the default dialect
+    of the compilation in progress, never the dialect of the call in progress: the method compiled there is stored in
+    the class's permanent slot and serves every later call without a dialect."""
+    import re
+    n = 0
+    allowed_names = {"default_dialect", "_default_dialect"}
+    for mod in (M_BUILDER, M_PACK, M_UNPACK, M_CODEC_BUILDER):
+        for fi in repo.funcs.values():
+            if fi.module != mod:
+                continue
+            for c in _own_nodes(fi.node):
+                if isinstance(c, ast.Call):
+                    for kw in c.keywords:
+                        if kw.arg == "default_dialect":
+                            n += 1
+                            names = {x.attr if isinstance(x, ast.Attribute) else x.id for x in ast.walk(kw.value) if isinstance(x, (ast.Name, ast.Attribute))}
+                            bad = {"dialect", "_dialect"} & names or isinstance(kw.value, (ast.BoolOp, ast.IfExp))
+                            inst = f"{fi.qualname}: {ast.unparse(c.func)}(default_dialect={ast.unparse(kw.value)[:60]})"
+                            if bad:
+                                rep.violation(rule, fi.key, inst, "the call dialect leaks into the permanently stored method of a nested / variant class: "
+                                              "later calls without a dialect behave as if the first call's dialect were the default", loc=_loc(fi, c))
+                            else:
+                                rep.ok(rule, inst, None)
+                elif isinstance(c, (ast.JoinedStr, ast.Constant)) and not isinstance(getattr(c, "value", ""), (int, float, bytes, type(None), bool)):
+                    txt = _strings(c) if isinstance(c, ast.JoinedStr) else (c.value if isinstance(c.value, str) else "")
+                    for m in re.finditer(r"default_dialect=([^,)]*)", txt):
+                        val = m.group(1).strip()
+                        if isinstance(c, ast.JoinedStr) and val == "":
+                            # hole follows: take the hole expression
+                            holes = [ast.unparse(v.value) for v in c.values if isinstance(v, ast.FormattedValue)]
+                            val = next((h for h in holes if "default_dialect" in h), "")
+                            if not val:
+                                continue
+                        n += 1
+                        toks = set(re.findall(r"[A-Za-z_][A-Za-z_0-9]*", val))
+                        inst = f"{fi.qualname}: emits default_dialect={val[:60]}"
+                        if ({"dialect", "_dialect"} & toks) or " or " in val or " if " in val:
+                            rep.violation(rule, fi.key, inst, "the call dialect leaks into the permanently stored method of a nested / variant class: "
+                                          "later calls without a dialect behave as if the first call's dialect were the default", loc=_loc(fi, c))
+                        else:
+                            rep.ok(rule, inst, None)
+    rep.floor(rule, 5)
+
+
+def codec_dialect_merge_order(repo: Repo, rep: Report, rule: str) -> None:
+    """In the format codecs the user's default_dialect is merged *onto* the format dialect
+    (`<Format>Dialect.merge(default_dialect)`: entries of the argument win), in the encoder and the decoder alike."""
+    n = 0
+    for fmt, mod in M_CODECS.items():
+        mi = repo.modules.get(mod)
+        if mi is None:
+            continue
+        for c in ast.walk(mi.tree):
+            if isinstance(c, ast.Call) and isinstance(c.func, ast.Attribute) and c.func.attr == "merge":
+                n += 1
+                recv, arg = ast.unparse(c.func.value), ast.unparse(c.args[0]) if c.args else ""
+                inst = f"{mod}: {recv}.merge({arg})"
+                if recv.endswith("Dialect") and recv[0].isupper() and arg == "default_dialect":
+                    rep.ok(rule, inst, None)
+                else:
+                    rep.violation(rule, f"{mod}::<codec __init__>", inst, "Dialect.merge gives precedence to its argument: the user's dialect must be the argument, "
+                                  "the format dialect the receiver, in the encoder and the decoder alike; otherwise the format's pass-through entries "
+                                  "override the user's strategy on one side only", loc=f"{mod.replace('.', '/')}.py:{c.lineno}")
+    rep.floor(rule, 6)
+
+
+def format_endpoints_agree(repo: Repo, rep: Report, rule: str) -> None:
+    """For every format the codec module's _default_encoder/_default_decoder and the mixin module's
+    default_encoder/default_decoder are the same call (callee and keyword arguments): the two entry points of one format."""
+    n = 0
+    for fmt in ("msgpack", "yaml"):
+        for kind in ("encoder", "decoder"):
+            a = _func(repo, M_MIXINS[fmt], f"default_{kind}")
+            b = _func(repo, M_CODECS[fmt], f"_default_{kind}")
+            if a is None or b is None:
+                continue
+            def ret(fi):
+                rs = [x for x in _own_nodes(fi.node) if isinstance(x, ast.Return) and x.value is not None]
+                return ast.unparse(rs[0].value) if len(rs) == 1 else None
+            ra, rb = ret(a), ret(b)
+            n += 1
+            inst = f"{fmt} {kind}: mixin `{ra}`, codec `{rb}`"
+            if ra is None or rb is None:
+                rep.undecide(rule, inst)
+            elif ra == rb:
+                rep.ok(rule, inst, None)
+            else:
+                rep.violation(rule, b.key, inst, "the mixin and the codec of one format must parse / render with the same parameters; "
+                              "otherwise from_<fmt> and the Decoder disagree on the same bytes (e.g. integer map keys)", loc=b.loc)
+    rep.floor(rule, 4)
+
+
+NATIVE_DECODED = {"msgpack": {"bytes"}, "toml": {"datetime", "date", "time"}}
+
+
+def format_dialect_tables(repo: Repo, rep: Report, rule: str) -> None:
+    """A whole-entry `T: pass_through` in a format dialect's serialization_strategy means the format's own decoder
+    already returns a T.  That is so for bytes (msgpack bin) and date/time/datetime (TOML); any other type needs a
+    `deserialize` that builds T (msgpack returns bytes for a bytearray), and a dict entry's `deserialize` for T is T
+    itself or a callable named after it."""
+    n = 0
+    for fmt, mod in M_MIXINS.items():
+        mi = repo.modules.get(mod)
+        if mi is None:
+            continue
+        for cls in mi.tree.body:
+            if not (isinstance(cls, ast.ClassDef) and cls.name.endswith("Dialect")):
+                continue
+            for st in cls.body:
+                if isinstance(st, ast.Assign) and ast.unparse(st.targets[0]) == "serialization_strategy" and isinstance(st.value, ast.Dict):
+                    for k, v in zip(st.value.keys, st.value.values):
+                        t = ast.unparse(k)
+                        n += 1
+                        inst = f"{cls.name}.serialization_strategy[{t}] = {ast.unparse(v)[:60]}"
+                        if isinstance(v, ast.Name) and v.id == "pass_through":
+                            if t in NATIVE_DECODED.get(fmt, set()):
+                                rep.ok(rule, inst + f" ({fmt} decodes to {t} natively)", None)
+                            else:
+                                rep.violation(rule, f"{mod}::{cls.name}", inst, f"the {fmt} decoder does not return a {t}: with pass_through in both directions "
+                                              f"a field annotated {t} is left holding the decoder's native type (bytes for a bytearray)", loc=f"{mod.replace('.', '/')}.py:{v.lineno}")
+                        elif isinstance(v, ast.Dict):
+                            d = {ast.literal_eval(kk): ast.unparse(vv) for kk, vv in zip(v.keys, v.values)}
+                            if "deserialize" in d and d["deserialize"] == "pass_through" and t not in NATIVE_DECODED.get(fmt, set()):
+                                rep.violation(rule, f"{mod}::{cls.name}", inst, f"the {fmt} decoder does not return a {t}", loc=f"{mod.replace('.', '/')}.py:{v.lineno}")
+                            else:
+                                rep.ok(rule, inst, None)
+                        else:
+                            rep.undecide(rule, inst)
+    rep.floor(rule, 6)
+
+
+# ------------------------------------------------------------------------------------------------ batch 2
+SHARED_OPTIONS = {"serialize_by_alias", "omit_none", "omit_default", "namedtuple_as_dict", "no_copy_collections"}
+
+
+def _parents(fn: ast.AST):
+    par = {}
+    for n in ast.walk(fn):
+        for c in ast.iter_child_nodes(n):
+            par[c] = n
+    return par
+
+
+def shared_options_read_through_chain(repo: Repo, rep: Report, rule: str) -> None:
+    """Options that both Dialect and BaseConfig declare (serialize_by_alias, omit_none, omit_default,
+    namedtuple_as_dict, no_copy_collections) are read by the generators through get_dialect_or_config_option only,
+    which walks call dialect -> Config.dialect -> Config -> default dialect.  A direct attribute read on self.dialect /
+    get_config() skips part of the chain (Config.dialect, the format's default dialect)."""
+    n = 0
+    for mod in (M_BUILDER, M_PACK, M_UNPACK, M_CODEC_BUILDER):
+        for fi in repo.funcs.values():
+            if fi.module != mod:
+                continue
+            name = fi.qualname.split(".")[-1]
+            for c in _own_nodes(fi.node):
+                opt = None
+                if isinstance(c, ast.Attribute) and c.attr in SHARED_OPTIONS and isinstance(c.ctx, ast.Load):
+                    recv = ast.unparse(c.value)
+                    if recv in ("spec",):
+                        continue  # ValueSpec.no_copy_collections: the value already resolved by the caller
+                    opt, how = c.attr, f"{recv}.{c.attr}"
+                elif isinstance(c, ast.Call) and isinstance(c.func, ast.Name) and c.func.id == "getattr" and len(c.args) >= 2 \
+                        and isinstance(c.args[1], ast.Constant) and c.args[1].value in SHARED_OPTIONS:
+                    opt, how = c.args[1].value, ast.unparse(c)[:70]
+                elif isinstance(c, ast.Call) and isinstance(c.func, ast.Attribute) and c.func.attr in ("get_dialect_or_config_option", "get_owner_dialect_or_config_option") \
+                        and c.args and isinstance(c.args[0], ast.Constant) and c.args[0].value in SHARED_OPTIONS:
+                    n += 1
+                    recv = ast.unparse(c.func.value)
+                    inst = f"{fi.qualname}: {c.args[0].value} through {recv}.{c.func.attr}"
+                    if recv in ("self", "spec.builder", "self.parent", "builder", "self._self_builder", "self.__owner_builder"):
+                        rep.ok(rule, inst, None)
+                    else:
+                        rep.undecide(rule, inst + " (unrecognised receiver)")
+                    continue
+                if opt is None:
+                    continue
+                n += 1
+                inst = f"{fi.qualname}: reads {how}"
+                if name in ("get_dialect_or_config_option", "get_owner_dialect_or_config_option"):
+                    rep.ok(rule, inst + " (the chain itself)", None)
+                else:
+                    rep.violation(rule, fi.key, inst + " directly", f"`{opt}` is declared by Dialect and by BaseConfig and is resolved along the chain call dialect -> "
+                                  "Config.dialect -> Config -> default dialect; a direct read skips Config.dialect / the default dialect, so to_dict and from_dict "
+                                  "(which use the chain) disagree about keys", loc=_loc(fi, c))
+    rep.floor(rule, 6)
+
+
+def short_names_not_identifiers(repo: Repo, rep: Report, rule: str) -> None:
+    """type_name(..., short=True) drops the module: it is used for messages only (exceptions, error text), never for a
+    name bound in the generated namespace, where two classes of the same name from different modules would collide."""
+    n = 0
+    for fi in repo.funcs.values():
+        if not fi.module.startswith("mashumaro"):
+            continue
+        par = None
+        for c in _own_nodes(fi.node):
+            if isinstance(c, ast.Call) and ast.unparse(c.func).endswith("type_name") and any(k.arg == "short" and isinstance(k.value, ast.Constant) and k.value.value is True for k in c.keywords):
+                n += 1
+                inst = f"{fi.qualname}: {ast.unparse(c)[:70]}"
+                if fi.module == "mashumaro.exceptions":
+                    rep.ok(rule, inst + " (exception text)", None)
+                    continue
+                par = par or _parents(fi.node)
+                p, msg = c, False
+                sink = None
+                while p in par:
+                    p = par[p]
+                    if isinstance(p, ast.Call) and ast.unparse(p.func) in ("clean_id", "spec.builder.ensure_object_imported", "self.ensure_object_imported"):
+                        sink = ast.unparse(p.func)
+                        break
+                    if isinstance(p, ast.Raise):
+                        msg = True
+                        break
+                    if isinstance(p, ast.Assign):
+                        sink = "assigned to " + ast.unparse(p.targets[0])
+                        break
+                if msg:
+                    rep.ok(rule, inst + " (raise message)", None)
+                else:
+                    rep.violation(rule, fi.key, inst + f" flows into {sink or 'generated code'}", "a short type name identifies a class only within its module; used as a bound name "
+                                  "(ensure_object_imported binds with setdefault) the second same-named class silently gets the first one's method", loc=_loc(fi, c))
+    rep.floor(rule, 5)
+
+
+def _disjunct_kinds(expr: ast.AST) -> Set[str]:
+    kinds = set()
+    vals = expr.values if isinstance(expr, ast.BoolOp) and isinstance(expr.op, ast.Or) else [expr]
+    for v in vals:
+        t = ast.unparse(v)
+        if "is_type_var_any(" in t:
+            kinds.add("type_var_any")
+        elif "is_optional(" in t:
+            kinds.add("optional")
+        elif " in (" in t and "Any" in t and "None" in t:
+            kinds.add("any_or_none:" + t.split(" in ")[0].strip())
+        elif t.endswith("is None"):
+            kinds.add("default_is_none")
+        else:
+            kinds.add("other:" + t[:40])
+    return kinds
+
+
+def nullability_sites_agree(repo: Repo, rep: Report, rule: str) -> None:
+    """The four places that decide `could_be_none` (field packer, field unpacker, codec encode, codec decode) use the
+    same disjuncts: the annotated type is Any/None, the resolved type is an unconstrained TypeVar, the type is Optional
+    (+ the default is None for fields).  Pack and unpack must agree, or omit_none / the None guard differ by direction."""
+    sites = {}
+    for mod in (M_BUILDER, M_CODEC_BUILDER):
+        for fi in repo.funcs.values():
+            if fi.module != mod:
+                continue
+            for st in _own_nodes(fi.node):
+                if isinstance(st, ast.Assign) and ast.unparse(st.targets[0]) == "could_be_none" and isinstance(st.value, ast.BoolOp):
+                    sites[fi.qualname] = (fi, st, _disjunct_kinds(st.value))
+    if len(sites) < 4:
+        raise AnalysisError(f"only {len(sites)} could_be_none decisions found")
+    need = {"type_var_any", "optional"}
+    for qn, (fi, st, kinds) in sites.items():
+        k2 = {k.split(":")[0] for k in kinds}
+        subj = [k.split(":", 1)[1] for k in kinds if k.startswith("any_or_none:")]
+        inst = f"{qn}: could_be_none = {sorted(k2)}" + (f" on `{subj[0]}`" if subj else "")
+        bad = None
+        if not need <= k2 or "any_or_none" not in k2:
+            bad = f"misses {sorted((need | {'any_or_none'}) - k2)}"
+        elif any(k.startswith("other") for k in k2):
+            rep.undecide(rule, inst)
+            continue
+        elif subj and subj[0] not in ("ftype", "shape_type"):
+            bad = f"tests `{subj[0]}` instead of the annotated type for Any / None"
+        if bad:
+            rep.violation(rule, fi.key, inst + " -- " + bad, "a position typed with a bare TypeVar (or Any, None, Optional) may hold None: without that disjunct the value is packed "
+                          "through `self.<field>` with no None guard and omit_none never drops it; the four decision sites must agree", loc=_loc(fi, st))
+        else:
+            rep.ok(rule, inst, None)
+    rep.floor(rule, 4)
+
+
+def element_positions_nullable(repo: Repo, rep: Report, rule: str) -> None:
+    """In the registries (pack.py / unpack.py) `could_be_none=False` is never written (only the field-level callers
+    know that), a wrapper that merely unwraps a type (Final, Annotated, NewType, Required...) copies the spec without
+    touching could_be_none, and the number of `could_be_none=True` element copies of a pack_X / unpack_X pair agree."""
+    per_func = {}
+    for mod in (M_PACK, M_UNPACK):
+        for fi in repo.funcs.values():
+            if fi.module != mod:
+                continue
+            cnt = 0
+            for c in _own_nodes(fi.node):
+                if isinstance(c, ast.keyword) and c.arg == "could_be_none":
+                    if isinstance(c.value, ast.Constant) and c.value.value is True:
+                        cnt += 1
+                    else:
+                        rep.violation(rule, fi.key, f"{fi.qualname}: could_be_none={ast.unparse(c.value)[:40]}",
+                                      "inside the registries a derived position is either judged afresh (could_be_none=True) or inherits the caller's verdict; "
+                                      "forcing False removes the None guard of Optional members below (Final[Optional[X]] = null is rejected)", loc=_loc(fi, c.value))
+            per_func[(mod, fi.qualname)] = (cnt, fi)
+    pairs = 0
+    for (mod, qn), (cnt, fi) in per_func.items():
+        if mod != M_PACK or not qn.startswith("pack_"):
+            continue
+        twin = per_func.get((M_UNPACK, "un" + qn))
+        if twin is None:
+            continue
+        pairs += 1
+        inst = f"{qn}: {cnt} element position(s) judged afresh; un{qn}: {twin[0]}"
+        if cnt == twin[0]:
+            rep.ok(rule, inst, None)
+        else:
+            low = fi if cnt < twin[0] else twin[1]
+            rep.violation(rule, low.key, inst, "the packer and the unpacker of one container type visit the same element positions; a position that loses could_be_none=True "
+                          "inherits the enclosing field's verdict, so Optional elements lose their None guard exactly when the field itself is Optional", loc=low.loc)
+    if pairs < 4:
+        raise AnalysisError(f"only {pairs} pack_X / unpack_X pairs found")
+    rep.floor(rule, 4)
+
+
+NUMERIC_KEYWORDS = {"minContains", "maxContains", "minItems", "maxItems", "minLength", "maxLength", "minimum", "maximum", "exclusiveMinimum",
+                    "exclusiveMaximum", "multipleOf", "minProperties", "maxProperties"}
+
+
+def numeric_keywords_not_truthy(repo: Repo, rep: Report, rule: str) -> None:
+    """Numeric JSON Schema keywords (minContains, minItems, minimum, ...) are set from annotation values under an
+    `is not None` test, never through truthiness (`x or None`, `if x:`): 0 is a meaningful value (minContains 0)."""
+    n = 0
+    for fi in repo.funcs.values():
+        if fi.module != M_SCHEMA:
+            continue
+        par = None
+        for st in _own_nodes(fi.node):
+            if isinstance(st, ast.Assign) and isinstance(st.targets[0], ast.Attribute) and st.targets[0].attr in NUMERIC_KEYWORDS:
+                n += 1
+                inst = f"{fi.qualname}: {ast.unparse(st)[:70]}"
+                bad = any(isinstance(x, ast.BoolOp) for x in ast.walk(st.value))
+                par = par or _parents(fi.node)
+                p = st
+                while p in par and not bad:
+                    q = par[p]
+                    if isinstance(q, ast.If) and p in q.body and isinstance(q.test, (ast.Name, ast.Attribute)) \
+                            and ast.unparse(q.test) in {ast.unparse(x) for x in ast.walk(st.value) if isinstance(x, (ast.Name, ast.Attribute))}:
+                        bad = True
+                    p = q
+                if bad:
+                    rep.violation(rule, fi.key, inst + " decided by truthiness", "an explicit 0 (MinContains(0), MinItems(0), Minimum(0)) is dropped from the schema; for minContains the "
+                                  "validator's default is 1, so a conforming array without a matching item is rejected", loc=_loc(fi, st))
+                else:
+                    rep.ok(rule, inst, None)
+    rep.floor(rule, 6)
+
+
+def own_config_only_sites(repo: Repo, rep: Report, rule: str) -> None:
+    """`look_in_parents=False` (ask the class's own Config only) is passed to get_config by get_discriminator only;
+    every other consumer sees the inherited Config, as the serializer does."""
+    n = 0
+    for fi in repo.funcs.values():
+        if not fi.module.startswith("mashumaro"):
+            continue
+        for c in _own_nodes(fi.node):
+            if isinstance(c, ast.Call) and ast.unparse(c.func).endswith("get_config") and any(k.arg == "look_in_parents" and isinstance(k.value, ast.Constant) and k.value.value is False for k in c.keywords):
+                n += 1
+                inst = f"{fi.qualname}: {ast.unparse(c)[:60]}"
+                if fi.qualname == "CodeBuilder.get_discriminator":
+                    rep.ok(rule, inst, None)
+                else:
+                    rep.violation(rule, fi.key, inst, "a class without a Config of its own inherits its parent's (aliases, serialize_by_alias, code generation options): "
+                                  "a consumer that asks for the own Config only disagrees with the serializer for such classes", loc=_loc(fi, c))
+    rep.floor(rule, 1)
+
+
+def optional_member_selection(repo: Repo, rep: Report, rule: str) -> None:
+    """Where a registry function handles `is_optional(spec.type, ...)`, the non-None member is selected with
+    not_none_type_arg(get_args(...), resolved params) -- Union[None, X] and `None | X` keep None first."""
+    n = 0
+    for mod in (M_PACK, M_UNPACK):
+        for fi in repo.funcs.values():
+            if fi.module != mod:
+                continue
+            for st in _own_nodes(fi.node):
+                if isinstance(st, ast.If) and "is_optional(" in ast.unparse(st.test):
+                    n += 1
+                    body = "\n".join(ast.unparse(b) for b in st.body)
+                    inst = f"{fi.qualname}: Optional branch"
+                    idx = [x for b in st.body for x in ast.walk(b) if isinstance(x, ast.Subscript) and "get_args(" in ast.unparse(x.value) and isinstance(x.slice, ast.Constant)]
+                    if "not_none_type_arg(" in body and not idx:
+                        rep.ok(rule, inst + " selects the member with not_none_type_arg", None)
+                    else:
+                        rep.violation(rule, fi.key, inst + (f" selects the member by position `{ast.unparse(idx[0])}`" if idx else " does not use not_none_type_arg"),
+                                      "Optional[X] is Union[X, None] only when written that way: Union[None, X] and None | X keep NoneType first, so the positional choice "
+                                      "packs X values with the NoneType packer (the raw object is emitted)", loc=_loc(fi, st))
+    rep.floor(rule, 2)
+
+
+def omit_default_comparison(repo: Repo, rep: Report, rule: str) -> None:
+    """The omit_default guard compares the value with the default (`value != <default>`, or the NaN form); it is never a
+    truthiness test (falsy non-default values 0, '', False would be dropped)."""
+    n = 0
+    for fi in repo.funcs.values():
+        if fi.module != M_BUILDER:
+            continue
+        for st in _own_nodes(fi.node):
+            if isinstance(st, ast.Assign) and ast.unparse(st.targets[0]) == "comp_expr":
+                n += 1
+                txt = _strings(st.value)
+                inst = f"{fi.qualname}: comp_expr = {ast.unparse(st.value)[:60]}"
+                if "!=" in txt or "is not" in txt or "isnan(" in txt:
+                    rep.ok(rule, inst, None)
+                else:
+                    rep.violation(rule, fi.key, inst, "omit_default drops a key only when the value equals the default; a truthiness test also drops 0, '', False, 0.0 "
+                                  "for a field whose default is an empty container", loc=_loc(fi, st))
+    rep.floor(rule, 2)
+
+
+def plain_config_copied_whole(repo: Repo, rep: Report, rule: str) -> None:
+    """A plain `class Config:` (not a BaseConfig subclass) is lifted to a BaseConfig subclass carrying *all* its
+    attributes: the namespace passed to type(...) unpacks config_cls.__dict__ unfiltered."""
+    fi = repo.func(M_BUILDER, "CodeBuilder.get_config")
+    hits = [c for c in _own_nodes(fi.node) if isinstance(c, ast.Call) and isinstance(c.func, ast.Name) and c.func.id == "type" and len(c.args) == 3]
+    if not hits:
+        raise AnalysisError("get_config no longer lifts a plain Config with type(...)")
+    for c in hits:
+        ns = c.args[2]
+        inst = f"get_config: type('Config', ..., {ast.unparse(ns)[:70]})"
+        whole = isinstance(ns, ast.Dict) and any(k is None and ast.unparse(v) == "config_cls.__dict__" for k, v in zip(ns.keys, ns.values))
+        filtered = any(isinstance(x, (ast.DictComp, ast.GeneratorExp, ast.ListComp)) and any(g.ifs for g in x.generators) for x in ast.walk(ns))
+        if whole and not filtered:
+            rep.ok(rule, inst, None)
+        elif filtered:
+            rep.violation(rule, fi.key, inst + " filters the plain Config's attributes", "an option missing from the filter silently keeps its BaseConfig default "
+                          "for plain `class Config:` declarations only (allow_deserialization_not_by_alias, ...)", loc=_loc(fi, c))
+        else:
+            rep.undecide(rule, inst)
+    rep.floor(rule, 1)
+
+
+def emitted_tuple_displays(repo: Repo, rep: Report, rule: str) -> None:
+    """A generated membership test `in (<joined items>)` is emitted only under a `len(items) > 1` test (or with a
+    trailing comma): with one item the parentheses are not a tuple (`x in ('abc')` is a substring test)."""
+    import re
+    n = 0
+    for mod in (M_PACK, M_UNPACK, M_BUILDER):
+        for fi in repo.funcs.values():
+            if fi.module != mod:
+                continue
+            par = None
+            for c in _own_nodes(fi.node):
+                if not isinstance(c, ast.JoinedStr):
+                    continue
+                for i, v in enumerate(c.values[:-1]):
+                    if isinstance(v, ast.Constant) and isinstance(v.value, str) and re.search(r"\bin \($", v.value) and isinstance(c.values[i + 1], ast.FormattedValue):
+                        after = c.values[i + 2].value if i + 2 < len(c.values) and isinstance(c.values[i + 2], ast.Constant) else ""
+                        hole = c.values[i + 1].value
+                        joined = "join(" in ast.unparse(hole)
+                        if isinstance(hole, ast.Name):
+                            joined = any(isinstance(s, ast.Assign) and ast.unparse(s.targets[0]) == hole.id and "join(" in ast.unparse(s.value) for s in _own_nodes(fi.node))
+                        if not joined:
+                            continue
+                        n += 1
+                        inst = f"{fi.qualname}: emits `in ({{{ast.unparse(hole)[:40]}}}{after[:3]}`"
+                        par = par or _parents(fi.node)
+                        p, guarded = c, after.startswith(",")
+                        while p in par and not guarded:
+                            q = par[p]
+                            if isinstance(q, ast.If) and re.search(r"len\(.+\) (>|>=) [12]", ast.unparse(q.test)) and any(p is b or p in ast.walk(b) for b in q.body):
+                                guarded = True
+                            p = q
+                        if guarded:
+                            rep.ok(rule, inst + " under a len(...) > 1 test", None)
+                        else:
+                            rep.violation(rule, fi.key, inst + " for any number of items", "with a single item `(x)` is not a tuple: a str item turns the membership test into a "
+                                          "substring test ('' and 'ab' pass for Literal['abc']), a class item raises TypeError", loc=_loc(fi, c))
+    rep.floor(rule, 1)
